@@ -351,6 +351,11 @@ class IOData:
         # of electrons. Only when mo is absent, we use a stored value.
         if self.mo is not None:
             return self.mo.nelec
+        if self._nelec is None and self._charge is not None:
+            # A charge that was assigned before the core charges were known is converted
+            # into a number of electrons as soon as the core charges are available.
+            # (Reading atcorenums does this, just as in the charge getter.)
+            self.atcorenums  # noqa: B018
         return self._nelec
 
     @nelec.setter
